@@ -49,6 +49,11 @@ expression may use them too; the driver computes their float values, so the bloc
 module must resolve every name the in-process solver resolves (C20_ResolvesSolverNames, C20_Closed over the
 module's own globals, which the driver reads from the import statements of the written file).
 
+Reduction and tolerance (fifth follow-up): the constructor option run_equation_reduction is part of the block
+(reduce): decorative variables (leaves, an unread alias INC = <last>, the injected t = k when unread) are moved
+behind the others but every variable is still solved ONCE (C20_EachVariableOnce, C20_ReductionKeepsEquations).
+Err_Tolerance = 1.0 / 2.0 with values around 1e6: the stopping rule must still let the iteration run.
+
 Names and lags (second follow-up): the grammar also uses variable names that are locals of the generated
 RunOneStep / Iterator (err, cnt = 500.0, new_vector, in_vec - the loop state must stay the module's own:
 C20_LoopStateOwn), a lag of a lagged variable (LAG2_y = LAG_y(k-1)), two lags of ONE lagged variable in any declaration order
@@ -101,8 +106,8 @@ CONST_SPELLINGS = ['sqrt(4.0)', 'tanh(0.5) + 1.5', 'sinh(1.0)', 'cosh(0.0) + 1.0
 # = TimeWrapReads of MC_Codegen (tw): spellings of the time trend, all equal to t for t >= 0
 TIME_WRAPS = ['t', 'max(t, 0.0)', 'hypot(t, 0.0)', 'abs(t)', 'copysign(t, 1.0)']
 RESERVED_ATTRS = ('MaxIterations', 'MaxTime', 'STEP', 'PrintIterations', 'Err_Tolerance', 'VariableList')
-NAME_FIELDS = ('endo', 'lagged', 'exos', 'ics', 'maxTime', 'foundT')
-GRAMMAR_FIELDS = ('n', 'A', 'lag', 'ic', 'exo', 'cst', 'userT', 'useT', 'tol', 'maxTime', 'nm', 'fn', 'tw')
+NAME_FIELDS = ('endo', 'lagged', 'exos', 'ics', 'maxTime', 'foundT', 'reduce')
+GRAMMAR_FIELDS = ('n', 'A', 'lag', 'ic', 'exo', 'cst', 'userT', 'useT', 'tol', 'maxTime', 'nm', 'fn', 'tw', 'red', 'al')
 REGEN_FRACTION_QUICK = 1.0 / 3.0
 
 
@@ -138,7 +143,7 @@ def system(block):
             if block['cst'] == 2:
                 e['same'][param] = F(1)
             else:
-                e['const'] = F(2)
+                e['const'] = F(1000000) if block['cst'] == 3 else F(2)
                 if block['cst'] == 1:                      # a closed expression over math names / builtins
                     e['const_text'] = CONST_SPELLINGS[block.get('fn', 1) - 1]
                     e['const'] = F(eval(e['const_text'], _math_namespace()))   # exactly the float both solvers get
@@ -148,6 +153,8 @@ def system(block):
             e['same']['t'] = F(1, 4)
             e['same_text'] = {'t': TIME_WRAPS[block.get('tw', 0)]}
         eqs[v] = e
+    if block.get('al'):                                      # an alias nothing reads: INC = <last>
+        eqs['INC'] = {'same': {last: F(1)}, 'lag': {}, 'const': F(0), 'k': F(0), 'const_text': None}
     if block['cst'] == 2:
         eqs[param] = {'same': {}, 'lag': {}, 'const': F(PARAM_VALUE[nm]), 'k': F(0), 'const_text': None}
     if block['lag'] >= 3:
@@ -236,7 +243,7 @@ def render(block):
     if block['ic']:
         lines.append('%s(0) = 10.0' % sysm['last'])
     if block['tol']:
-        lines.append('Err_Tolerance = 1e-%d' % block['tol'])
+        lines.append('Err_Tolerance = ' + tolerance_text(block))
     lines.append('MaxTime = %d' % block['maxTime'])
     if sysm['paths']:
         lines.append('# Exogenous variables')
@@ -245,8 +252,15 @@ def render(block):
     return '\n'.join(lines) + '\n'
 
 
+def tolerance_text(block):
+    """tol: 0 = no line (parser default 1e-8), 1..99 = 1e-<tol>, 100 / 200 = 1.0 / 2.0"""
+    if not block['tol']:
+        return '1e-8'
+    return '1e-%d' % block['tol'] if block['tol'] < 100 else repr(block['tol'] / 100.0)
+
+
 def tolerance(block):
-    return F('1e-%d' % block['tol']) if block['tol'] else F('1e-8')
+    return F(tolerance_text(block))
 
 
 def name_level(block):
@@ -706,7 +720,7 @@ def execute(block, scratch, uid, regenerate=False):
     ev = {'ev': 'ParseBlock', 'block': name_level(block)}
     gen = None
     try:
-        gen = IterativeMachineGenerator(text)
+        gen = IterativeMachineGenerator(text, run_equation_reduction=bool(block.get('red', False)))
         exos = []
         for nm, value in gen.Exogenous:
             try:
@@ -796,6 +810,10 @@ def _signature_of_generation(clause, block, want, endo, info):
             return ('lagged-variable' if kind == 'lagged' else 'variable') + '-series-gets-several-values-per-period'
         short = sorted(nm for nm in kept if len(info['series'].get(nm, [])) < block['maxTime'] + 1)
         return ('series-without-a-value-per-period:' + ','.join(short)) if short else None
+    stuck = [nm for nm in endo if len(info['series'].get(nm, [])) > 1 and len(set(info['series'][nm])) == 1]
+    if clause in ('C20_StepSatisfiesEquations', 'C20_AgreesWithInProcess') and endo and len(stuck) == len(endo) \
+            and any(not f['resid_ok'] for f in info['flags'].values()):
+        return 'no-sweep-performed-every-period-repeats-the-values-of-period-0'
     if clause == 'C20_StepSatisfiesEquations':
         for k in sorted(info['flags'], key=int):
             if not info['flags'][k]['resid_ok']:
@@ -942,6 +960,8 @@ def run(rep):
     rep.extra['blocks_with_names_of_generated_locals'] = sum(1 for b in blocks if b['nm'] == 1)
     rep.extra['blocks_with_names_of_the_generated_class'] = sum(1 for b in blocks if b['nm'] == 2)
     rep.extra['blocks_with_a_variable_named_NEW_other_variable'] = sum(1 for b in blocks if b['nm'] == 3 and b['n'] > 1)
+    rep.extra['blocks_generated_with_equation_reduction'] = sum(1 for b in blocks if b['red'])
+    rep.extra['blocks_with_a_tolerance_of_one_or_more'] = sum(1 for b in blocks if b['tol'] >= 100)
     rep.extra['blocks_with_math_or_builtin_names'] = sum(1 for b in blocks if b['cst'] == 1 or b['tw'] or b['exo'] == 3)
     rep.extra['blocks_with_a_lag_of_a_lagged_variable'] = sum(1 for b in blocks if b['lag'] >= 3)
     rep.extra['blocks_with_two_lags_of_one_lagged_variable'] = sum(1 for b in blocks if b['lag'] >= 4)
